@@ -151,6 +151,31 @@ Proof. intros Hk Hasc. rewrite layer_correct.
     destruct H2 as [->|H2]; [lia|]. destruct (Hasc j (k-1)%nat ltac:(lia)) as [A B].
     apply Rle_trans with (nth (k-1) rs 0 * nth (k-1) rs 0); [|exact H2]. nra. Qed.
 
+(** LayeredSphere: radii built from non-negative thicknesses are non-negative and ascending,
+    i.e. they satisfy the hypothesis of [layer_shell], and the last one is the total thickness *)
+Fixpoint sumR (l : list R) : R := match l with [] => 0 | x :: t => x + sumR t end.
+Lemma cumsum_from_nth acc ts k : (k < length ts)%nat ->
+  nth k (cumsum_from RO acc ts) 0 = acc + sumR (firstn (S k) ts).
+Proof. revert acc k; induction ts as [|t r IH]; intros acc k Hk; simpl in Hk; [lia|].
+  destruct k as [|k]; cbn [cumsum_from nth firstn sumR add RO]; [lra|].
+  rewrite IH by lia. cbn [firstn sumR]. lra. Qed.
+Lemma layered_radii_nth ts k : (k < length ts)%nat -> nth k (layered_radii RO ts) 0 = sumR (firstn (S k) ts).
+Proof. destruct ts as [|t0 r]; simpl; [lia|]. intros Hk. destruct k as [|k]; [simpl; lra|].
+  cbn [nth]. rewrite cumsum_from_nth by lia. cbn [firstn sumR]. lra. Qed.
+Lemma layered_radii_length ts : length (layered_radii RO ts) = length ts.
+Proof. destruct ts as [|t0 r]; [reflexivity|]. simpl. f_equal. generalize t0. induction r as [|x r IH]; intros a; simpl; [reflexivity|]. f_equal. apply IH. Qed.
+Lemma sumR_firstn_mono ts i j : Forall (fun t => 0 <= t) ts -> (i <= j)%nat -> 0 <= sumR (firstn i ts) <= sumR (firstn j ts).
+Proof. intros H. revert i j. induction H as [|t r Ht Hr IH]; intros i j Hij.
+  - rewrite !firstn_nil. simpl. lra.
+  - destruct i as [|i]; destruct j as [|j]; try lia; cbn [firstn sumR].
+    + lra. + destruct (IH 0%nat j ltac:(lia)) as [_ B]. simpl in B. lra.
+    + destruct (IH i j ltac:(lia)). lra. Qed.
+Lemma layered_radii_ascending ts : Forall (fun t => 0 <= t) ts ->
+  forall i j, (i <= j < length (layered_radii RO ts))%nat ->
+    0 <= nth i (layered_radii RO ts) 0 <= nth j (layered_radii RO ts) 0.
+Proof. intros H i j Hij. rewrite layered_radii_length in Hij. rewrite !layered_radii_nth by lia.
+  apply sumR_firstn_mono; [exact H|lia]. Qed.
+
 (** ellipsoid *)
 Lemma ell_contains_iff c r p :
   contains RO (Ell c r) p = true <->
